@@ -2,12 +2,14 @@
 # C15 — model of DIP branching (`@case` / `@else` / `@end`)
 
 Mirrors, statement by statement, the code of `/repo/src/scinumtools/dip`
-(after the `fix:` commits bc26006, d6c5e92, 62d4beb):
+(after the `fix:` commits bc26006, d6c5e92, 62d4beb, f476bb7, 790a797):
 
 * `lists/list_hierarchy.py`  `HierarchyList.register`        → `popGE`, `register`, `fullName`
 * `nodes/node_case.py`       `CaseNode.parse`                → the `@N` numbering in `step`
 * `nodes/node_base.py`       `BaseNode.clean_name`           → `cleanName`
+* `nodes/node_constant.py`, `node_tags.py` `parse`           → `Eff.prop`, applied in `applyEffs`
 * `lists/list_branching.py`  `false_case`                    → `falseBranch`, `falseCase`
+                             `false_case(indent)`            → `falseCase (closeGE indent ·)`
                              `close_cases`                   → `closeGE`
                              `solve_case` (closing loop)     → `closeFor`
                              `solve_case` (rest), `_open_branch`, `_switch_case`, `_close_branch`
@@ -17,8 +19,9 @@ Mirrors, statement by statement, the code of `/repo/src/scinumtools/dip`
 
 Representation choices (the only places where the model is not literal):
 * a hierarchical name `"g.@3.a"` is the list of its dot-separated components
-  `[nm "g", cs 3, nm "a"]`; written names are single plain identifiers (no dots,
-  no compact `plant.@case` form) — the generators only produce those;
+  `[nm "g", cs 3, nm "a"]`; a written name is the list of its dot-separated parts
+  (`engine.@case` has the parts `["engine"]` in front of its `@`), each part a plain
+  identifier; a `Parent` of the hierarchy holds the components of one written name;
 * Python lists used as stacks (`parents`, `state`, `Branch.cases`) are Lean lists
   with the *top at the head*;
 * `state` holds branch ids and `branches`/`cases` are dicts keyed by id; an id on
@@ -60,31 +63,39 @@ structure Branch where
   earlier : List Case
   deriving DecidableEq, Repr, Inhabited
 
+/-- Property lines used here: `!constant` and `!tags ["t"]`. -/
+inductive PKind where
+  | constant
+  | tags (t : String)
+  deriving DecidableEq, Repr, Inhabited
+
 /-- What a source line is, after the lexer. -/
 inductive Kw where
   | node (isMod : Bool) (v : Int)   -- `name int = v`  /  `name = v`
   | group                            -- `name`
-  | case (c : Bool)                  -- `@case true` / `@case false`
-  | els                              -- `@else`
-  | fin                              -- `@end`
+  | prop (p : PKind)                 -- `!constant` / `!tags ["t"]`
+  | case (c : Bool)                  -- `[parts.]@case true` / `[parts.]@case false`
+  | els                              -- `[parts.]@else`
+  | fin                              -- `[parts.]@end`
   deriving DecidableEq, Repr, Inhabited
 
 structure Line where
   indent : Nat
-  name : String      -- written name (unused for clause lines)
+  name : List String   -- dot-separated parts of the written name (clause lines: the parts
+                       -- in front of `@`; property lines: unused)
   kw : Kw
   deriving DecidableEq, Repr, Inhabited
 
-/-- A node line that took effect: cleaned hierarchical name, kind, value. -/
-structure Eff where
-  name : List String
-  isMod : Bool
-  v : Int
+/-- A line that took effect: a node line (cleaned hierarchical name, kind, value) or a
+    property line (which `parse` applies to `env.nodes[-1]`). -/
+inductive Eff where
+  | node (name : List String) (isMod : Bool) (v : Int)
+  | prop (p : PKind)
   deriving DecidableEq, Repr, Inhabited
 
 /-- Parser state: `HierarchyList.parents` and `BranchingList`. -/
 structure St where
-  parents : List (Nat × Comp)
+  parents : List (Nat × List Comp)
   state : List Branch
   numCases : Nat
   numBranches : Nat
@@ -95,16 +106,19 @@ def St.init : St := ⟨[], [], 0, 0⟩
 /-! ## list_hierarchy.py -/
 
 /-- `while self.parents and node.indent<=self.parents[-1].indent: self.parents.pop()` -/
-def popGE (k : Nat) : List (Nat × Comp) → List (Nat × Comp)
+def popGE (k : Nat) : List (Nat × List Comp) → List (Nat × List Comp)
   | [] => []
   | p :: ps => if k ≤ p.1 then popGE k ps else p :: ps
 
 /-- `HierarchyList.register` -/
-def register (ps : List (Nat × Comp)) (indent : Nat) (c : Comp) : List (Nat × Comp) :=
+def register (ps : List (Nat × List Comp)) (indent : Nat) (c : List Comp) : List (Nat × List Comp) :=
   (indent, c) :: popGE indent ps
 
 /-- `Sign.SEPARATOR.join([parent.name for parent in self.parents])` as a component list. -/
-def fullName (ps : List (Nat × Comp)) : List Comp := (ps.map Prod.snd).reverse
+def fullName (ps : List (Nat × List Comp)) : List Comp := ((ps.map Prod.snd).reverse).flatten
+
+/-- The components of a written name. -/
+def nms (parts : List String) : List Comp := parts.map Comp.nm
 
 /-- `BaseNode.clean_name`: `re.sub("@[0-9]+\.", "", name)`. -/
 def cleanName (cs : List Comp) : List String :=
@@ -147,7 +161,7 @@ def switchCase (st : List Branch) (c : Case) : Except Unit (List Branch) :=
 
 /-- `solve_case` for a clause line already renamed to `…@n` and registered in the
     hierarchy (`ps`); `s.numCases = n`. -/
-def solveCase (s : St) (ps : List (Nat × Comp)) (indent : Nat) (kw : Kw) : Except Unit St :=
+def solveCase (s : St) (ps : List (Nat × List Comp)) (indent : Nat) (kw : Kw) : Except Unit St :=
   let pathNew := (fullName ps).dropLast
   let r := closeFor indent pathNew s.state
   let st1 := r.1
@@ -181,26 +195,35 @@ def solveCase (s : St) (ps : List (Nat × Comp)) (indent : Nat) (kw : Kw) : Exce
 
 def step (s : St) (l : Line) : Except Unit (St × List Eff) :=
   match l.kw with
+  | .prop p =>
+    -- close_cases (properties are not in the hierarchy but end cases at their indent);
+    -- skip test; `parse` applies the property to `env.nodes[-1]`; `continue`
+    let st1 := closeGE l.indent s.state
+    .ok ({ s with state := st1 }, if falseCase st1 then [] else [.prop p])
   | .group =>
     -- close_cases; skip test / parse (nothing to do); hierarchy.register; `continue`
     let st1 := closeGE l.indent s.state
-    let ps := register s.parents l.indent (.nm l.name)
+    let ps := register s.parents l.indent (nms l.name)
     .ok ({ s with parents := ps, state := st1 }, [])
   | .node m v =>
     -- close_cases; skip test / parse (nothing to do); hierarchy.register
     let st1 := closeGE l.indent s.state
-    let ps := register s.parents l.indent (.nm l.name)
+    let ps := register s.parents l.indent (nms l.name)
     -- second skip test
     if falseCase st1 then .ok ({ s with parents := ps, state := st1 }, [])
     else
       -- prepare_node (closes again), clean_name, define-or-modify
       let st2 := closeGE l.indent st1
-      .ok ({ s with parents := ps, state := st2 }, [⟨cleanName (fullName ps), m, v⟩])
+      .ok ({ s with parents := ps, state := st2 }, [.node (cleanName (fullName ps)) m v])
   | kw =>
-    -- clause lines are parsed whatever the skip test says: CaseNode.parse numbers them
+    -- clause lines are parsed whatever the skip test says: CaseNode.parse numbers them and
+    -- evaluates a `@case` condition unless an enclosing case is unselected (false_case(indent))
     let n := s.numCases + 1
-    let ps := register s.parents l.indent (.cs n)
-    match solveCase { s with numCases := n } ps l.indent kw with
+    let kw' := match kw with
+      | .case c => Kw.case (c && !falseCase (closeGE l.indent s.state))
+      | k => k
+    let ps := register s.parents l.indent (nms l.name ++ [.cs n])
+    match solveCase { s with numCases := n } ps l.indent kw' with
     | .ok s' => .ok (s', [])
     | .error e => .error e
 
@@ -220,27 +243,50 @@ def parse (ls : List Line) : Except Unit (List Eff) :=
   | .ok (_, o) => .ok o
   | .error e => .error e
 
-/-- Define-or-modify of `DIP.parse` on the effective lines (ints only): a definition of
-    an existing name and a modification both replace the value in place; modifying an
-    undefined node raises.  Used identically on the model's and the specification's
-    effect list; result in definition order like `env.data()`. -/
-def applyEffs (acc : List (List String × Int)) : List Eff → Except Unit (List (List String × Int))
+/-- One entry of `env.nodes`: name, value, `constant`, `tags`. -/
+structure NodeRec where
+  name : List String
+  v : Int
+  constant : Bool
+  tags : List String
+  deriving DecidableEq, Repr, Inhabited
+
+def applyProp (p : PKind) (r : NodeRec) : NodeRec :=
+  match p with
+  | .constant => { r with constant := true }
+  | .tags t => { r with tags := r.tags ++ [t] }
+
+/-- What `DIP.parse` does with the effective lines (ints only).  A node line whose name
+    exists replaces the value in place unless the node is constant (raises); otherwise a
+    modification raises and a definition is appended.  A property line is applied to the
+    last entry (`env.nodes[-1]`, raises on an empty list).  Used identically on the model's and
+    the specification's effect list; result in `env.nodes` order. -/
+def applyEffs (acc : List NodeRec) : List Eff → Except Unit (List NodeRec)
   | [] => .ok acc
-  | e :: es =>
-    if acc.any (fun p => p.1 == e.name) then
-      applyEffs (acc.map (fun p => if p.1 == e.name then (p.1, e.v) else p)) es
-    else if e.isMod then .error ()
-    else applyEffs (acc ++ [(e.name, e.v)]) es
+  | .node name m v :: es =>
+    if acc.any (fun r => r.name == name) then
+      if acc.any (fun r => r.name == name && r.constant) then .error ()
+      else applyEffs (acc.map (fun r => if r.name == name then { r with v := v } else r)) es
+    else if m then .error ()
+    else applyEffs (acc ++ [⟨name, v, false, []⟩]) es
+  | .prop p :: es =>
+    match acc.reverse with
+    | [] => .error ()
+    | last :: rest => applyEffs ((applyProp p last :: rest).reverse) es
 
 /-! ## Specification: programs as trees -/
 
 mutual
   /-- `extra` = how much deeper than the minimum (keyword indent + 1) the children are
-      written: the indentation oracle. -/
+      written: the indentation oracle.  A node carries the property lines written below it
+      (each with its own extra indent); `prop` is a property line written at the level of the
+      sequence (e.g. directly after a block).  `pfx` = the dotted parent written in front of
+      every clause keyword of the block (`engine.@case …`, compact form; `[]` = plain form). -/
   inductive Item where
-    | node (name : String) (isMod : Bool) (v : Int)
+    | node (name : String) (isMod : Bool) (v : Int) (props : List (Nat × PKind))
+    | prop (p : PKind)
     | group (name : String) (extra : Nat) (body : Items)
-    | block (c : Bool) (extra : Nat) (body : Items) (more : Chain)
+    | block (pfx : List String) (c : Bool) (extra : Nat) (body : Items) (more : Chain)
   inductive Items where
     | nil
     | cons (i : Item) (rest : Items)
@@ -251,36 +297,55 @@ mutual
     | fin (explicitEnd : Bool)
 end
 
-/-- Does the item sequence start with a clause line? -/
-def Items.startsCase : Items → Bool
-  | .cons (.block ..) _ => true
-  | _ => false
+/-- The prefix of the block an item is (if it is one). -/
+def Item.blockPfx : Item → Option (List String)
+  | .block pfx .. => some pfx
+  | _ => none
 
-def endLine (k : Nat) (b : Bool) : List Line := if b then [⟨k, "", .fin⟩] else []
+/-- The prefix of the block an item sequence starts with (if it starts with one). -/
+def Items.firstPfx : Items → Option (List String)
+  | .cons i _ => i.blockPfx
+  | .nil => none
+
+/-- A block directly followed by a block with the same parent needs `@end`. -/
+def needsEnd (a b : Option (List String)) : Bool :=
+  match a, b with
+  | some x, some y => x == y
+  | _, _ => false
+
+def endLine (k : Nat) (pfx : List String) (b : Bool) : List Line := if b then [⟨k, pfx, .fin⟩] else []
+
+def propLines (k : Nat) (props : List (Nat × PKind)) : List Line :=
+  props.map (fun ep => ⟨k + 1 + ep.1, [], .prop ep.2⟩)
 
 mutual
-  /-- Rendering at indent `k`. `forceEnd`: the block is directly followed by a sibling
-      block, so (as the documentation requires) it gets an `@end` even if not asked for. -/
+  /-- Rendering at indent `k`. `forceEnd`: the block is directly followed by a sibling block
+      with the same parent, so (as the documentation requires) it gets an `@end` even if not
+      asked for. -/
   def Item.render (k : Nat) (forceEnd : Bool) : Item → List Line
-    | .node n m v => [⟨k, n, .node m v⟩]
-    | .group n e body => ⟨k, n, .group⟩ :: body.render (k + 1 + e)
-    | .block c e body more => ⟨k, "", .case c⟩ :: (body.render (k + 1 + e) ++ more.render k forceEnd)
+    | .node n m v props => ⟨k, [n], .node m v⟩ :: propLines k props
+    | .prop p => [⟨k, [], .prop p⟩]
+    | .group n e body => ⟨k, [n], .group⟩ :: body.render (k + 1 + e)
+    | .block pfx c e body more =>
+      ⟨k, pfx, .case c⟩ :: (body.render (k + 1 + e) ++ more.render k pfx forceEnd)
   def Items.render (k : Nat) : Items → List Line
     | .nil => []
-    | .cons i rest => i.render k rest.startsCase ++ rest.render k
-  def Chain.render (k : Nat) (forceEnd : Bool) : Chain → List Line
-    | .case c e body more => ⟨k, "", .case c⟩ :: (body.render (k + 1 + e) ++ more.render k forceEnd)
-    | .els e body ee => ⟨k, "", .els⟩ :: (body.render (k + 1 + e) ++ endLine k (ee || forceEnd))
-    | .fin ee => endLine k (ee || forceEnd)
+    | .cons i rest => i.render k (needsEnd i.blockPfx rest.firstPfx) ++ rest.render k
+  def Chain.render (k : Nat) (pfx : List String) (forceEnd : Bool) : Chain → List Line
+    | .case c e body more => ⟨k, pfx, .case c⟩ :: (body.render (k + 1 + e) ++ more.render k pfx forceEnd)
+    | .els e body ee => ⟨k, pfx, .els⟩ :: (body.render (k + 1 + e) ++ endLine k pfx (ee || forceEnd))
+    | .fin ee => endLine k pfx (ee || forceEnd)
 end
 
 mutual
-  /-- The effective node lines of a program: a block contributes the items of its first
-      true clause, else of `@else`, else nothing. `pre` = names of the enclosing groups. -/
+  /-- The effective lines of a program: a block contributes the items of its first true
+      clause, else of `@else`, else nothing. `pre` = names of the enclosing groups (and of the
+      parents written in compact form). -/
   def Item.sem (pre : List String) : Item → List Eff
-    | .node n m v => [⟨pre ++ [n], m, v⟩]
+    | .node n m v props => .node (pre ++ [n]) m v :: props.map (fun ep => Eff.prop ep.2)
+    | .prop p => [.prop p]
     | .group n _ body => body.sem (pre ++ [n])
-    | .block c _ body more => if c then body.sem pre else more.sem pre
+    | .block pfx c _ body more => if c then body.sem (pre ++ pfx) else more.sem (pre ++ pfx)
   def Items.sem (pre : List String) : Items → List Eff
     | .nil => []
     | .cons i rest => i.sem pre ++ rest.sem pre
@@ -296,9 +361,10 @@ mutual
       true `@case`, or `@else` when no `@case` is true.  `done` = an earlier clause of the block
       is true. -/
   def Item.occ (pre : List String) (sel : List Bool) : Item → List (List Bool × Eff)
-    | .node n m v => [(sel, ⟨pre ++ [n], m, v⟩)]
+    | .node n m v props => (sel, .node (pre ++ [n]) m v) :: props.map (fun ep => (sel, Eff.prop ep.2))
+    | .prop p => [(sel, .prop p)]
     | .group n _ body => body.occ (pre ++ [n]) sel
-    | .block c _ body more => body.occ pre (c :: sel) ++ more.occ pre sel c
+    | .block pfx c _ body more => body.occ (pre ++ pfx) (c :: sel) ++ more.occ (pre ++ pfx) sel c
   def Items.occ (pre : List String) (sel : List Bool) : Items → List (List Bool × Eff)
     | .nil => []
     | .cons i rest => i.occ pre sel ++ rest.occ pre sel
@@ -323,25 +389,28 @@ def lastAtMost (k : Nat) (before : List Line) : Option Line :=
   before.reverse.find? (fun l => l.indent ≤ k)
 
 /-- The clause (if any) that is open at indent `k` after the lines `before`: the latest
-    line indented no deeper than `k` is a `@case`/`@else` written at exactly `k`. -/
-def specOpenAt (k : Nat) (before : List Line) : Option CType :=
+    line indented no deeper than `k` is a `@case`/`@else` written at exactly `k`; with the
+    parent written in front of its keyword. -/
+def specOpenAt (k : Nat) (before : List Line) : Option (CType × List String) :=
   match lastAtMost k before with
   | some j =>
     if j.indent = k then
       match j.kw with
-      | .case _ => some .case
-      | .els => some .els
+      | .case _ => some (.case, j.name)
+      | .els => some (.els, j.name)
       | _ => none
     else none
   | none => none
 
-/-- `@else` needs an open `@case` clause at its indent, `@end` an open `@case`/`@else`;
-    a `@case` must not continue an `@else` (nothing but `@end` can follow `@else`). -/
+/-- `@else` needs an open `@case` clause at its indent with the same written parent, `@end` an
+    open `@case`/`@else`; a `@case` must not continue an `@else` (nothing but `@end` can
+    follow `@else`). -/
 def misplacedAt (before : List Line) (l : Line) : Bool :=
   match l.kw with
-  | .els => specOpenAt l.indent before != some .case
-  | .fin => specOpenAt l.indent before == none
-  | .case _ => specOpenAt l.indent before == some .els
+  | .els => specOpenAt l.indent before != some (.case, l.name)
+  | .fin => specOpenAt l.indent before != some (.case, l.name) &&
+            specOpenAt l.indent before != some (.els, l.name)
+  | .case _ => specOpenAt l.indent before == some (.els, l.name)
   | _ => false
 
 /-- Some clause line of the sequence is misplaced. -/
